@@ -221,6 +221,9 @@ def part_a(ck):
             s0 = (int(ad[0]) - t.address - (x0 % SW) * 16) // sy_
             s2 = "-" if int(ad[2]) == 0 else str((int(ad[2]) - t.address - (x0 % SW) * 16) // sy_)
             r = f"{int(h0)} {int(w0)} {s0} {s2}"
+            if y1 - y0 <= B:     # a box at most as high as the buffer: the Lean Spec judges the implementation's tiles
+                spec.append(f"tiles {y0} {y1} {B} {int(h0)} {s0} {s2}")
+                spec_meta.append(dict(tiles=True, y0=y0, y1=y1, B=B, x0=x0, x1=x1, SW=SW, result=r))
         except UnsupportedFeatureError:
             r = "err:unsupported"
         add(f"arb {y0} {y1} {x0} {x1} {B} {SW}", r)
@@ -230,7 +233,7 @@ def part_a(ck):
     for rq, r in zip(reqs, reals):
         ck.count("A_req_" + rq.split(" ", 1)[0])
     sp = ck.model(spec) if spec else []
-    bad = [(i, o) for i, o in enumerate(sp) if not o.startswith("recv=1 cov=1")]
+    bad = [(i, o) for i, o in enumerate(sp) if not (o.startswith("recv=1 cov=1") or (o == "1" and spec[i].startswith("tiles")))]
     return dict(reqs=reqs, reals=reals, outs=outs, dis=dis, metas=metas, spec=spec, spec_meta=spec_meta, spec_out=sp, spec_bad=bad,
                 n_exhaustive=n_exh)
 
@@ -735,6 +738,13 @@ def classify_stripe_failure(m):
 def report_a(ck, A):
     for i, o in A["spec_bad"][:400]:
         m = A["spec_meta"][i]
+        if m.get("tiles"):
+            ck.count("A_tiles_reject")
+            ck.violation(f"Lean Spec (tile addressing): addresses_for_rolling_buffer does not map every row of box rows [{m['y0']},{m['y1']}) "
+                         f"to slot r mod {m['B']}: returned (height0 width0 slot0 slot2) = {m['result']}",
+                         {"spec_request": A["spec"][i], "case": m, "replay": "Tensor.addresses_for_rolling_buffer on a RollingBufferY tensor "
+                          "with storage_shape [1,B,SW,16] (check_C10.part_a)"})
+            continue
         key = classify_stripe_failure(m)
         ck.count("A_spec_reject_" + (key or "UNKNOWN"))
         ck.violation(f"Lean Spec (receptive field / box coverage) rejects the real transform_with_strides_and_skirt + create_padding "
@@ -742,7 +752,7 @@ def report_a(ck, A):
                      "replay": "c10_lib.real_transform / real_create_padding with these parameters"}, key=key)
     if A["dis"]:
         i = min(A["dis"], key=lambda j: len(A["reqs"][j]))
-        unknown_spec = [1 for j, _o in A["spec_bad"] if classify_stripe_failure(A["spec_meta"][j]) is None]
+        unknown_spec = [1 for j, _o in A["spec_bad"] if A["spec_meta"][j].get("tiles") or classify_stripe_failure(A["spec_meta"][j]) is None]
         if not unknown_spec:
             ck.violation("correspondence Model/Box.lean, Model/Cascade.lean vs real functions broken on %d inputs" % len(A["dis"]),
                          {"correspondence": A["reqs"][i].split()[0], "request": A["reqs"][i], "model": A["outs"][i],
@@ -807,7 +817,7 @@ def main():
     Cp = part_c(ck)
     programs, rejected, cdis = report_c(ck, Cp)
     # evidence ------------------------------------------------------------------------------------
-    a_nontrivial = len({A["spec"][i] for i, m in enumerate(A["spec_meta"]) if m["y1"] - m["y0"] < m["OH"]})
+    a_nontrivial = len({A["spec"][i] for i, m in enumerate(A["spec_meta"]) if m.get("tiles") or m["y1"] - m["y0"] < m["OH"]})
     b_nontrivial = len({rq for rq, rl in zip(Bp["reqs"], Bp["reals"]) if rl.count(";") >= 1})
     c_nontrivial = len({Cp["reqs"][i] for i, ow in enumerate(Cp["owners"]) if ow[0] == "recv" and not
                         (ow[2]["extra"][ow[3]]["stripes"][ow[4]]["first"] and ow[2]["extra"][ow[3]]["stripes"][ow[4]]["last"])})
